@@ -170,7 +170,8 @@ def run(tier):
             if sig == "unknown":
                 ctx.note_inconclusive(f"{r['job'][2]!r}: {what}")
             elif sig.startswith("harness"):
-                raise HarnessError(f"{r['job'][2]!r}: {what}")
+                ctx.harness_gap(f"{r['job'][2]!r}: {what}")
+                continue
             else:
                 ctx.violation(sig, f"{r['job'][2]!r} -> {what}", {"source": r["job"][2], "emitted": r.get("emitted")})
     for r in results[:: max(1, len(results) // 8)]:
